@@ -22,7 +22,8 @@ package props
 //                     the allocator bounded by len(input) must answer oom (recorded as an observation: the decoder
 //                     allocates the announced list size before reading the elements)
 //   L1 typed<=walk    on the real code alone: what Decode accepts, skipStruct accepts with the same byte count
-//   L1 typed-prefix   on the real code alone: an accepted input is rejected at every cut before its end
+//   L1 typed-prefix   on the real code alone: an accepted input is rejected at every cut before its end, with
+//                     io.EOF or io.ErrUnexpectedEOF
 //   L1 marshal        Decode accepts the library's own Marshal output at its full length
 
 import (
@@ -612,8 +613,8 @@ func c14tJudge(ctx *core.Ctx, rootName, schema string, c c14tCase, ans, real str
 			if m < 0 || m >= e {
 				continue
 			}
-			if a := c14tRealRoot(rootName, c.b[:m]); !strings.HasPrefix(a, "err ") {
-				ctx.Fail("L1", "typed-accepts-strict-prefix root="+rootName+" "+strings.Fields(a)[0], fmt.Sprintf("accepted at %d, the cut at %d answers %q", e, m, a), detail(map[string]any{"cut": m}))
+			if a := c14tRealRoot(rootName, c.b[:m]); a != "err eof" && a != "err ueof" {
+				ctx.Fail("L1", "typed-cut-not-eof root="+rootName+" "+cls(a), fmt.Sprintf("accepted at %d, the cut at %d answers %q, expected io.EOF / io.ErrUnexpectedEOF (typed_cut_eof)", e, m, a), detail(map[string]any{"cut": m}))
 			} else {
 				ctx.Hist("cut.class", cls(a))
 			}
